@@ -200,11 +200,16 @@ contract("usim._primitives.context.Scope.do",
                                               "loop._pending == old(loop._pending)"])},
          ensures=["fresh_obj(result) and result.parent is self and result.__volatile__ == volatile and result._result is None",
                   "result.__runner__.state == 0 and not result._done._value and result.linked and not result.reported",
+                  # C01: the start date reaches the task unconverted (`after=0` / `at=now` mean "in this time step");
+                  # a date computed from the caller's date (e.g. at - now) would not be the same float
+                  "result.start_at == ite(at is not None and at != old(loop.time), at, None)",
+                  "result.start_delay == ite(after is not None and after != 0, after, None)",
                   # registered at the end of the right list, its first activation queued for the current time step
                   "implies(volatile, self._volatile_children == old(self._volatile_children) + [result] and self._children == old(self._children))",
                   "implies(not volatile, self._children == old(self._children) + [result] and self._volatile_children == old(self._volatile_children))",
                   "loop._pending == old(loop._pending) + [Activation(result.__runner__, None)]",
                   "self._child_failures == old(self._child_failures) and self._interruptable",
+                  'only_new_changed("Task.start_delay")', 'only_new_changed("Task.start_at")',
                   'only_new_changed("Task.payload")',
                   'only_new_changed("Task.parent")',
                   'only_new_changed("Task.__volatile__")',
@@ -225,7 +230,7 @@ contract("usim._primitives.context.Scope.do",
                   'only_new_changed("Notification.queue")'],
          ghost_exit=["result.linked = True"],
          modifies=["Scope._children@self", "Scope._volatile_children@self", "Loop._pending@loop", "Task.cpos", "Task.vpos",
-                   "Task.payload", "Task.parent", "Task.__volatile__", "Task._result", "Task._cancellations", "Task._done", "Task.__runner__",
+                   "Task.start_delay", "Task.start_at", "Task.payload", "Task.parent", "Task.__volatile__", "Task._result", "Task._cancellations", "Task._done", "Task.__runner__",
                    "Task.linked", "Task.reported", "coroutine.task", "coroutine.state", "Done._task", "Done._value", "Done._inverse",
                    "NotDone._done", "Notification._waiting", "Notification.lock", "Notification.queue"],
          props=["C04", "C01", "C06"])
